@@ -441,6 +441,7 @@ STUBS = [
 HARNESSES = {
     "bmc": Harness("bmc", h_bmc, _bmc_jobs, style="BMC", bounds="2 channels (reliable ordered + partially reliable: maxRetransmits 0/1 or lifetime, ordered/unordered); <=3 messages of <=2 (3) fragments; cwnd of 1, 2 or 8 fragments; 3 (quick) / 4 solver-chosen events; then a loss-free suffix and one fresh message per channel", encoded=ENC, stubs=STUBS, twin="suffix-done", opts={"samples": 1}),
     "step-forward-tsn": Harness("step-forward-tsn", h_step_forward_tsn, _fwd_layouts, style="STEP", bounds="4 (quick) / 6 interleavings of reliable and abandoned PR fragments over consecutive TSNs with symbolic origin; which reliable fragments arrived before the FORWARD-TSN is solver-chosen", encoded=ENC, stubs=STUBS, twin="forward-tsn-processed"),
+    "flush-params": Harness("flush-params", lambda ctx, **kw: __import__("harness.c13_channel", fromlist=["h_flush_params"]).h_flush_params(ctx, **kw), lambda tier: [{"n": n} for n in ((2,) if tier == "quick" else (2, 3))], style="BMC over configurations", bounds="messages of partially reliable, unordered and reliable channels flushed in one call (solver-chosen kinds and order): each is handed to _send with its own channel's lifetime / retransmission limit / ordering", encoded=ENC + ["aiortc.rtcsctptransport:RTCSctpTransport._data_channel_flush"], stubs=STUBS + ["RTCSctpTransport._send -> recorder"], twin="flushed", opts={"samples": 1}),
     "step-sack-abandon": Harness("step-sack-abandon", h_step_sack_abandon, lambda tier: [{"q": q, "ngaps": g} for q in ((2, 3) if tier == "quick" else (2, 3, 4)) for g in (1, 2) if not (tier == "quick" and q == 3 and g == 2)] + [{"q": 2, "ngaps": g, "parked": True} for g in ((1,) if tier == "quick" else (1, 2))], style="STEP", bounds="one maxRetransmits=0 message of 2..3 (4) fragments in flight with symbolic sizes, miss counters and gap-ack flags; one SACK with symbolic cumulative point and <=2 gap blocks; TSN origin symbolic", encoded=ENC, stubs=STUBS, twin="sack-over-pr-message-processed", opts={"samples": 1}),
     "step-forward-acked": Harness("step-forward-acked", h_step_forward_acked, lambda tier: [{"q": q} for q in ((0, 1) if tier == "quick" else (0, 1, 2))] + [{"q": 0, "parked": True}], style="STEP", bounds="FORWARD-TSN over 1..3 abandoned chunks outstanding (in one job with a reliable channel's message parked in the channel queue) with one (stream, sequence) entry, 0..1 (quick) / 0..2 further outstanding chunks in arbitrary state, one SACK with symbolic cumulative point; TSN origin symbolic", encoded=ENC, stubs=STUBS, twin="sack-over-forward-tsn-processed", opts={"samples": 1}),
     "step-forward-held": Harness("step-forward-held", h_step_forward_held, lambda tier: [{"held": h} for h in ((0, 1) if tier == "quick" else (0, 1, 2))], style="STEP", bounds="ordered PR stream at a symbolic 16-bit sequence origin and 32-bit TSN origin: one lost message, 0..1 (quick) / 0..2 received messages held behind it, FORWARD-TSN over all of them, then the next two messages in swapped order", encoded=ENC, stubs=STUBS, twin="forward-tsn-over-held-processed", opts={"samples": 1}),
